@@ -216,6 +216,9 @@ static std::vector<std::string> parseBlock(std::istringstream& is, Gen& g)
         else if (c == 'w') { std::snprintf(buf, sizeof buf, "wait %.3f", std::stoi(r) / 1000.0); st.push_back(buf); }
         else if (c == 'i') { size_t q = r.find('='); std::string val = r.substr(q + 1); if (val[0] == '-') val = "( " + val + ")"; st.push_back("local.x" + r.substr(0, q) + " = " + val); }
         else if (c == 's') { size_t q = r.find('='); st.push_back("local.x" + r.substr(0, q) + " = \"" + unhex(r.substr(q + 1)) + "\""); }
+        else if (c == 'f') { size_t q = r.find('='); uint32_t u = (uint32_t)std::stoul(r.substr(q + 1)); float f; std::memcpy(&f, &u, 4);
+                             if (f < 0) std::snprintf(buf, sizeof buf, "( %.3f)", f); else std::snprintf(buf, sizeof buf, "%.3f", f);
+                             st.push_back("local.x" + r.substr(0, q) + " = " + buf); }
         else if (c == 'n') st.push_back("local.x" + r + " = NIL");
         else if (c == 'a') { size_t d = r.find('.'), q = r.find('='); std::string val = r.substr(q + 1); if (val[0] == '-') val = "( " + val + ")"; if (val == "nil") val = "NIL";
                              std::string key = r.substr(d + 1, q - d - 1); if (key[0] == '-') key = "( " + key + ")";
